@@ -318,6 +318,10 @@ static T0: std::sync::OnceLock<Instant> = std::sync::OnceLock::new();
 
 /// called before every library call: the watchdog measures one call, not a whole case;
 /// inputs above 4 kB get a cap that grows quadratically with their size (conversion time does)
+pub fn arm_watchdog_pub(input_len: usize) {
+    arm_watchdog(input_len)
+}
+
 fn arm_watchdog(input_len: usize) {
     if let Some(t0) = T0.get() {
         if CASE_START_MS.load(Ordering::SeqCst) != 0 {
@@ -352,7 +356,7 @@ pub fn budget_s(tier: Tier) -> u64 {
         .and_then(|s| s.parse().ok())
         .unwrap_or(match tier {
             Tier::Quick => 120,
-            Tier::Thorough => 1500,
+            Tier::Thorough => 3600,
         })
 }
 
